@@ -121,15 +121,35 @@ func runC06(p *core.Prog, r *core.Report) {
 			return sx.Range{}
 		}}
 		res := sx.Count(t.Push, t.Push.Blocks[0], w, nil)
-		for i, ret := range sx.Returns(t.Push) {
-			rv := returnValue(ret, 0)
-			rg, _ := res.Before(ret)
-			c := fmt.Sprintf("PushTask return #%d (%s)", i, short(sx.ValPath(rv)))
+		nCase := 0
+		judge := func(rv ssa.Value, rg sx.Range, pos string) {
+			nCase++
+			c := fmt.Sprintf("PushTask result #%d (%s)", nCase, short(sx.ValPath(rv)))
 			if sx.IsNilConst(rv) {
-				r.Check(rg.Is(1), "C06-R2", c, p.Pos(ret.Pos()), "`return nil` only after exactly one enqueue", "`return nil` on a path that enqueued "+rangeStr(rg)+" times: the caller is told the task was accepted although it was not (or was enqueued twice)")
+				r.Check(rg.Is(1), "C06-R2", c, pos, "nil only after exactly one enqueue", "nil is returned on a path that enqueued "+rangeStr(rg)+" times: the caller is told the task was accepted although it was not (or was enqueued twice)")
 			} else {
-				r.Check(rg.Is(0), "C06-R2", c, p.Pos(ret.Pos()), "error return without enqueue", "a possibly non-nil error is returned on a path that enqueued the task "+rangeStr(rg)+" times: a rejected task would still be started")
+				r.Check(rg.Is(0), "C06-R2", c, pos, "error result without enqueue", "a possibly non-nil error is returned on a path that enqueued the task "+rangeStr(rg)+" times: a rejected task would still be started")
 			}
+		}
+		for _, ret := range sx.Returns(t.Push) {
+			rv := returnValue(ret, 0)
+			// a result merged from several paths is judged per incoming path
+			if ph, ok := rv.(*ssa.Phi); ok {
+				for k, e := range ph.Edges {
+					pred := ph.Block().Preds[k]
+					term := pred.Instrs[len(pred.Instrs)-1]
+					rg, _ := res.Before(term)
+					for si, sb := range pred.Succs {
+						if sb == ph.Block() && sendArms[sx.Edge{From: pred, Idx: si}] {
+							rg = rg.Add(sx.Range{Min: 1, Max: 1})
+						}
+					}
+					judge(e, rg, p.Pos(ret.Pos()))
+				}
+				continue
+			}
+			rg, _ := res.Before(ret)
+			judge(rv, rg, p.Pos(ret.Pos()))
 		}
 	}
 
